@@ -4460,6 +4460,11 @@ class EntityMeta(type):
                 elif status == 'created':
                     assert undo_funcs is not None
                     obj._rbits_ = obj._wbits_ = None
+                    def undo_func():
+                        if obj._pkval_ is not None: del cache_index[obj._pkval_]
+                        cache.objects.discard(obj)
+                        cache.for_update.discard(obj)
+                    undo_funcs.append(undo_func)
                     for attr, val in pairs:
                         obj._vals_[attr] = val
                         if attr.reverse: attr.update_reverse(obj, NOT_LOADED, val, undo_funcs)
